@@ -9,6 +9,10 @@
 //!             quiescent system (threads = [] gives the purely sequential
 //!             configuration incl. serialize/restore).
 //! * `Coord` — the same with the coordinator-level operations.
+//! * `Part`  — a real `TxParticipant` (its own `LockManager` and store) receiving
+//!             prepares (first, retransmitted identical, changed), commits and
+//!             aborts from 0..3 threads, then a sequential tail; the same model
+//!             and search judge its lock manager.
 //! * `Graph` — sequential wait-for graphs on <= 8 transactions through
 //!             `add_wait`/`remove_wait`/`remove_transaction`/`cleanup_stale_edges`.
 //!
@@ -35,7 +39,7 @@ use std::sync::{Arc, Mutex};
 use std::time::Duration;
 use tensor_chain::{
     ConsensusConfig, ConsensusManager, DeadlockDetector, DeadlockDetectorConfig, DistributedTxConfig,
-    DistributedTxCoordinator, LockManager, PrepareRequest, PrepareVote, SerializableLockState, Transaction,
+    DistributedTxCoordinator, LockManager, PrepareRequest, PrepareVote, SerializableLockState, Transaction, TxParticipant,
     VictimSelectionPolicy, WaitForGraph,
 };
 
@@ -44,6 +48,9 @@ pub enum Mode {
     Lm,
     Coord,
     Graph,
+    /// a real `TxParticipant` (own lock manager, own store) receiving prepares,
+    /// commits and aborts
+    Part,
 }
 
 #[derive(Serialize, Deserialize, Clone, Debug, PartialEq)]
@@ -77,6 +84,13 @@ pub enum Op {
     Check,
     /// `cleanup_stale_edges(config.edge_ttl_ms)`
     CleanStale,
+    // ---- participant level (Part) ----
+    /// `TxParticipant::prepare` of one operation per key of the mask; val 0 =
+    /// Delete, otherwise Put of that byte. The same (tx, keys, val) again is a
+    /// retransmission of the identical request.
+    PPrepare { tx: u8, keys: u8, val: u8 },
+    PCommit { tx: u8 },
+    PAbort { tx: u8 },
 }
 
 /// The fields of `DeadlockDetectorConfig` that `Case::policy` / `Case::cap` do
@@ -276,6 +290,15 @@ impl Model {
                 self.acted(*tx);
                 match r {
                     Res::Granted(h) => {
+                        // a vote repeated under a handle granted earlier (a participant may
+                        // answer a retransmitted prepare that way) grants nothing new: it is
+                        // right exactly when "all keys of that prepare are held by that
+                        // transaction unexpired at that moment" under that handle; anything
+                        // else is judged as the grant it claims to be
+                        let repeat = !keys.is_empty() && keys.iter().all(|k| self.locks.get(k).is_some_and(|l| l.0 == *tx && l.1 == *h && !self.expired(l.2)));
+                        if repeat {
+                            return Ok(eff);
+                        }
                         if let Some((k, o)) = blockers.first() {
                             return Err(format!("granted although k{k} is held by unexpired tx {o}"));
                         }
@@ -449,6 +472,16 @@ struct World {
     det: DeadlockDetector,
     detp: DetParams,
     coord: Option<DistributedTxCoordinator>,
+    /// Part: the participant; its `locks` is the lock manager under test
+    part: Option<TxParticipant>,
+    /// Part: tx -> (handle, keys, val) of its latest Yes vote not yet followed by commit/abort
+    part_rec: Mutex<BTreeMap<u64, (u64, u8, u8)>>,
+    /// handles of earlier Yes votes of a transaction that is still prepared
+    part_earlier: Mutex<BTreeMap<u64, Vec<u64>>>,
+    /// Part: threads of the concurrent phase (a transaction is driven by thread (id-1) % n only)
+    part_threads: usize,
+    /// Part, sequential context: a Yes vote that the lock table read back at once does not bear out
+    part_violation: Mutex<Option<Violation>>,
     /// Coord: index -> generated transaction id
     txids: Vec<u64>,
     timeout_ms: u64,
@@ -468,6 +501,9 @@ static TXID_GATE: Mutex<()> = Mutex::new(());
 
 impl World {
     fn with_lm<R>(&self, f: impl FnOnce(&LockManager) -> R) -> R {
+        if let Some(p) = &self.part {
+            return f(&p.locks);
+        }
         match &self.coord {
             Some(c) => f(c.lock_manager()),
             None => {
@@ -475,6 +511,11 @@ impl World {
                 f(&lm)
             },
         }
+    }
+    /// Part, concurrent phase: one thread speaks for a transaction (its
+    /// coordinator), so "the handle the participant recorded for it" is known
+    fn part_owns(&self, th: usize, id: u64, seq: bool) -> bool {
+        seq || self.part_threads == 0 || (id as usize + self.part_threads - 1) % self.part_threads == th % self.part_threads
     }
     fn graph(&self) -> &WaitForGraph {
         match &self.coord {
@@ -721,6 +762,122 @@ impl World {
                 if r {
                     self.ctx.probe(if commit { "coord_commit_ok" } else { "coord_abort_ok" });
                     self.terminal(th, &[id], t0, t1, if commit { "commit" } else { "abort" });
+                } else {
+                    self.rec(id, t0, t1, RecKind::Act);
+                }
+            },
+            Op::PPrepare { tx, keys, val } if self.part.is_some() => {
+                let id = Self::lm_tx(*tx);
+                if !self.part_owns(th, id, seq) {
+                    return;
+                }
+                let mask = *keys & ((1u8 << NKEYS) - 1);
+                let ks = keys_of(mask);
+                let operations: Vec<Transaction> = ks
+                    .iter()
+                    .map(|k| if *val == 0 { Transaction::Delete { key: key_name(*k) } } else { Transaction::Put { key: key_name(*k), data: vec![*val] } })
+                    .collect();
+                let req = PrepareRequest {
+                    tx_id: id,
+                    coordinator: "n0".to_string(),
+                    operations,
+                    delta_embedding: tensor_store::SparseVector::from_dense(&[1.0, 0.0]),
+                    timeout_ms: 5000,
+                };
+                let prev = self.part_rec.lock().unwrap().get(&id).copied();
+                let p = self.part.as_ref().unwrap();
+                let t0 = self.tick();
+                let vote = p.prepare(req);
+                let t1 = self.tick();
+                let res = match &vote {
+                    PrepareVote::Yes { lock_handle, .. } => Res::Granted(*lock_handle),
+                    PrepareVote::Conflict { conflicting_tx, .. } => Res::Conflict { blocker: *conflicting_tx, keys: vec![] },
+                    _ => Res::Unit,
+                };
+                match (prev, &res) {
+                    (Some((_, pk, pv)), Res::Granted(_)) if pk == mask && pv == *val => self.ctx.probe("part_retransmission_granted"),
+                    // the transaction held every key of this very request: it can only be
+                    // refused now because a lease ran out and another transaction took a key over
+                    (Some((_, pk, pv)), Res::Conflict { .. }) if pk == mask && pv == *val => self.ctx.probe("part_retransmission_refused_after_takeover"),
+                    (Some((_, pk, _)), _) => {
+                        self.ctx.probe("part_changed_prepare");
+                        if pk & !mask != 0 {
+                            self.ctx.probe("part_changed_prepare_drops_key");
+                        }
+                    },
+                    _ => {},
+                }
+                if let Res::Granted(h) = &res {
+                    self.handles.lock().unwrap().push((id, *h));
+                    self.part_rec.lock().unwrap().insert(id, (*h, mask, *val));
+                    if seq {
+                        // nothing else runs: "a prepare that meets a held key is refused with a
+                        // conflict rather than granted" and a Yes vote means every key of the
+                        // request is locked by the transaction, unexpired, at this moment
+                        for k in &ks {
+                            let holder = p.locks.lock_holder(&key_name(*k));
+                            if holder != Some(id) {
+                                let (what, whom) = match holder {
+                                    Some(o) => ("held-by-another", format!("held, unexpired, by {}", self.tname(o))),
+                                    None => ("not-locked", "not locked (free or its lease has run out)".to_string()),
+                                };
+                                let mut v = self.part_violation.lock().unwrap();
+                                if v.is_none() {
+                                    *v = Some(Violation {
+                                        class: format!("participant-voted-yes:key-{what}"),
+                                        detail: format!(
+                                            "participant.prepare({}, keys {:?}, val {val}) -> Yes under {} although k{k} is {whom} right after the call{}",
+                                            self.tname(id),
+                                            ks,
+                                            self.hname(*h),
+                                            if prev.is_some_and(|(_, pk, pv)| pk == mask && pv == *val) { " (the request is identical to the one this transaction was last granted)" } else { "" }
+                                        ),
+                                    });
+                                }
+                            }
+                        }
+                    }
+                }
+                let granted_new = match (&res, prev) {
+                    (Res::Granted(h), Some((ph, _, _))) if *h != ph => Some(ph),
+                    _ => None,
+                };
+                self.push(th, Call::TryLock { tx: id, keys: ks, wt: false }, res, t0, t1);
+                if let Some(ph) = granted_new {
+                    // a repeated Yes under a new handle: keys that only the earlier request
+                    // named may be given up at once or kept until the transaction ends (the
+                    // text demands only that none remain after the end); taken both ways,
+                    // the table read back decides
+                    self.part_earlier.lock().unwrap().entry(id).or_default().push(ph);
+                    self.push_optional(th, Call::RelHandle { h: ph }, Res::Unit, t0, t1);
+                }
+                self.rec(id, t0, t1, RecKind::Act);
+            },
+            Op::PCommit { tx } | Op::PAbort { tx } if self.part.is_some() => {
+                let id = Self::lm_tx(*tx);
+                if !self.part_owns(th, id, seq) {
+                    return;
+                }
+                let commit = matches!(op, Op::PCommit { .. });
+                // what the participant recorded for the transaction: its latest Yes
+                let recorded = self.part_rec.lock().unwrap().remove(&id);
+                let p = self.part.as_ref().unwrap();
+                let t0 = self.tick();
+                let r = if commit { p.commit(id) } else { p.abort(id) };
+                let t1 = self.tick();
+                self.ctx.event(&format!("t{th} [{t0},{t1}] participant.{}({}) -> {}", if commit { "commit" } else { "abort" }, self.tname(id), r.success));
+                if let Some((h, _, _)) = recorded {
+                    self.ctx.probe(if commit { "part_commit_of_prepared" } else { "part_abort_of_prepared" });
+                    // the end releases the recorded handle somewhere inside [t0,t1] ...
+                    self.push(th, Call::RelHandle { h }, Res::Unit, t0, t1);
+                    // ... together with whatever it still held under earlier handles ...
+                    for ph in self.part_earlier.lock().unwrap().remove(&id).unwrap_or_default() {
+                        if ph != h {
+                            self.push(th, Call::RelHandle { h: ph }, Res::Unit, t0, t1);
+                        }
+                    }
+                    // ... and "none of its locks remain" is what `check_clean` states
+                    self.rec(id, t0, t1, RecKind::Finish(if commit { "part-commit" } else { "part-abort" }));
                 } else {
                     self.rec(id, t0, t1, RecKind::Act);
                 }
@@ -1146,6 +1303,15 @@ fn run_lm_or_coord(case: &Case, ctx: &Arc<RunCtx>) -> RunOut {
         None
     };
     let lock_timeout = if coord_mode { COORD_LOCK_TIMEOUT_MS } else { case.timeout_ms };
+    let part = if case.mode == Mode::Part {
+        // a participant shard as the node builds it: its own lock manager and store;
+        // the lease length is the participant's public `locks.default_timeout`
+        let mut p = TxParticipant::new_in_memory();
+        p.locks.default_timeout = Duration::from_millis(case.timeout_ms);
+        Some(p)
+    } else {
+        None
+    };
     let w = Arc::new(World {
         ctx: ctx.clone(),
         mode: case.mode.clone(),
@@ -1153,6 +1319,11 @@ fn run_lm_or_coord(case: &Case, ctx: &Arc<RunCtx>) -> RunOut {
         det: build_detector(case).0,
         detp: build_detector(case).1,
         coord,
+        part,
+        part_rec: Mutex::new(BTreeMap::new()),
+        part_earlier: Mutex::new(BTreeMap::new()),
+        part_threads: if case.mode == Mode::Part { case.threads.len().min(6) } else { 0 },
+        part_violation: Mutex::new(None),
         txids,
         timeout_ms: case.timeout_ms,
         hist: Mutex::new(Hist::default()),
@@ -1162,7 +1333,11 @@ fn run_lm_or_coord(case: &Case, ctx: &Arc<RunCtx>) -> RunOut {
     });
     let start_ns = ctx.lock().wall_ns;
     let mut model = Model::new(wall_ms(ctx), lock_timeout);
-    ctx.fp(if coord_mode { "coord" } else { "lm" });
+    ctx.fp(match case.mode {
+        Mode::Coord => "coord",
+        Mode::Part => "part",
+        _ => "lm",
+    });
 
     // ---- concurrent phase ----
     let nthreads = case.threads.len().min(6);
@@ -1230,6 +1405,9 @@ fn run_lm_or_coord(case: &Case, ctx: &Arc<RunCtx>) -> RunOut {
                 }
             }
         }
+        if overlap_pairs > 0 && case.mode == Mode::Part {
+            ctx.probe("part_calls_overlapped");
+        }
         if overlap_pairs > 0 {
             ctx.probe("calls_overlapped_runs");
             for _ in 0..overlap_pairs.min(50) {
@@ -1253,6 +1431,9 @@ fn run_lm_or_coord(case: &Case, ctx: &Arc<RunCtx>) -> RunOut {
                         }
                         if e.takeover {
                             ctx.probe("takeover_of_expired_lock");
+                            if case.mode == Mode::Part {
+                                ctx.probe("part_takeover_of_expired_lock");
+                            }
                         }
                         if e.swept > 0 {
                             ctx.probe("sweep_removed_expired");
@@ -1339,6 +1520,11 @@ fn run_lm_or_coord(case: &Case, ctx: &Arc<RunCtx>) -> RunOut {
             (h.calls.len(), h.recs.len())
         };
         w.exec(98, op, true);
+        if let Some(v) = w.part_violation.lock().unwrap().take() {
+            out.violation = Some(v);
+            out.nontrivial = true;
+            return out;
+        }
         let (new_calls, new_recs): (Vec<HOp>, Vec<Rec>) = {
             let h = w.hist.lock().unwrap();
             (h.calls[c0..].to_vec(), h.recs[r0..].to_vec())
@@ -1363,6 +1549,9 @@ fn run_lm_or_coord(case: &Case, ctx: &Arc<RunCtx>) -> RunOut {
                             }
                             if e.takeover {
                                 ctx.probe("takeover_of_expired_lock");
+                                if case.mode == Mode::Part {
+                                    ctx.probe("part_takeover_of_expired_lock");
+                                }
                             }
                             if e.swept > 0 {
                                 ctx.probe("sweep_removed_expired");
@@ -1395,6 +1584,20 @@ fn run_lm_or_coord(case: &Case, ctx: &Arc<RunCtx>) -> RunOut {
             }
             next.dedup();
             cands = next;
+        }
+        // an ended participant transaction: "none of its locks remain" is named first,
+        // being the clause itself (the table comparison below would report the same
+        // leftover as a difference from the model)
+        if case.mode == Mode::Part {
+            for r in &new_recs {
+                if let RecKind::Finish(how) = r.kind {
+                    if let Some(v) = w.check_clean(r.tx, how, true) {
+                        out.violation = Some(v);
+                        out.nontrivial = true;
+                        return out;
+                    }
+                }
+            }
         }
         // "at any moment each key is locked by at most one unexpired transaction":
         // the public observers must show exactly the model's table
@@ -1505,6 +1708,9 @@ fn op_name(op: &Op) -> &'static str {
         Op::Commit { .. } => "commit",
         Op::Abort { .. } => "abort",
         Op::Timeouts => "cleanup_timeouts",
+        Op::PPrepare { .. } => "participant_prepare",
+        Op::PCommit { .. } => "participant_commit",
+        Op::PAbort { .. } => "participant_abort",
         Op::AddWait { .. } => "add_wait",
         Op::RemoveWait { .. } => "remove_wait",
         Op::RemoveTx { .. } => "remove_transaction",
@@ -1813,6 +2019,87 @@ fn gen_lock_counts(rng: &mut Rng) -> Vec<u8> {
     }
 }
 
+/// One participant-level operation. `last` = per transaction the latest
+/// prepare generated for it (what a coordinator would retransmit).
+fn gen_part_op(rng: &mut Rng, tx: u8, nkeys: u8, timeout: u64, last: &mut BTreeMap<u8, (u8, u8)>) -> Op {
+    match rng.below(100) {
+        0..=54 => {
+            let (keys, val) = match last.get(&tx).copied() {
+                // the identical request again
+                Some(l) if rng.chance(1, 2) => l,
+                // a changed one: other value, other key set
+                Some((k, v)) if rng.chance(1, 2) => {
+                    if rng.chance(1, 2) {
+                        (k, v.wrapping_add(1) % 4)
+                    } else {
+                        (gen_mask(rng, nkeys), v)
+                    }
+                },
+                _ => (if rng.chance(3, 4) { 1u8 << rng.below(u64::from(nkeys)) } else { gen_mask(rng, nkeys) }, rng.below(4) as u8),
+            };
+            last.insert(tx, (keys, val));
+            Op::PPrepare { tx, keys, val }
+        },
+        55..=64 => {
+            last.remove(&tx);
+            Op::PCommit { tx }
+        },
+        65..=74 => {
+            last.remove(&tx);
+            Op::PAbort { tx }
+        },
+        75..=94 => {
+            // short of the lease, just past it, far past it
+            let over = (timeout / 100 + 1) * 100;
+            Op::Advance { ms: *rng.pick(&[100u64, over, over, over + 100, 3 * over]) as u32 }
+        },
+        _ => Op::Observe { key: rng.below(u64::from(nkeys)) as u8 },
+    }
+}
+
+fn gen_part(rng: &mut Rng, nkeys: u8, sticky: u64) -> Case {
+    let timeout = *rng.pick(&[150u64, 250, 950]);
+    let ntx = rng.range(2, 4) as u8;
+    let nthreads = if rng.chance(1, 2) { 0 } else { rng.range(1, 3) as u8 };
+    let mut last: BTreeMap<u8, (u8, u8)> = BTreeMap::new();
+    let mut threads = Vec::new();
+    for t in 0..nthreads {
+        // the transactions this thread speaks for: World::part_owns
+        let own: Vec<u8> = (0..ntx).filter(|x| (x % nthreads) == t).collect();
+        let n = rng.range(2, 6) as usize;
+        let mut p = Vec::new();
+        for _ in 0..n {
+            if own.is_empty() {
+                p.push(Op::Advance { ms: 100 });
+            } else {
+                let tx = *rng.pick(&own);
+                p.push(gen_part_op(rng, tx, nkeys, timeout, &mut last));
+            }
+        }
+        threads.push(p);
+    }
+    let tl = if nthreads == 0 { rng.range(6, 20) as usize } else { rng.below(8) as usize };
+    let mut tail = Vec::new();
+    for _ in 0..tl {
+        let tx = rng.below(u64::from(ntx)) as u8;
+        tail.push(gen_part_op(rng, tx, nkeys, timeout, &mut last));
+    }
+    let slen = rng.range(60, 300) as usize;
+    Case {
+        mode: Mode::Part,
+        timeout_ms: timeout,
+        ntx,
+        nshards: 1,
+        schedule: if nthreads == 0 { vec![] } else { sched::gen_schedule(rng, slen, sticky) },
+        threads,
+        tail,
+        policy: 0,
+        cap: 0,
+        lock_counts: vec![],
+        det: DetCase::default(),
+    }
+}
+
 fn gen_coord_op(rng: &mut Rng, home: u8, ntx: u8, nkeys: u8) -> Op {
     let tx = if rng.chance(3, 4) { home } else { rng.below(u64::from(ntx)) as u8 };
     match rng.below(100) {
@@ -1846,7 +2133,7 @@ impl Scenario for C12 {
         let sticky = *rng.pick(&[20u64, 50, 70, 85, 95]);
         match rng.below(100) {
             // (a) concurrent lock-manager programs
-            0..=44 => {
+            0..=40 => {
                 let nthreads = rng.range(2, 6) as u8;
                 let ntx = rng.range(u64::from(nthreads), u64::from((nthreads + 2).min(8))) as u8;
                 let timeout = *rng.pick(&[250u64, 950, 2950]);
@@ -1876,7 +2163,7 @@ impl Scenario for C12 {
                 }
             },
             // (b) sequential programs incl. serialize/restore
-            45..=59 => {
+            41..=53 => {
                 let ntx = rng.range(2, 6) as u8;
                 let timeout = *rng.pick(&[250u64, 950, 2950]);
                 let tl = rng.range(6, 24) as usize;
@@ -1895,7 +2182,7 @@ impl Scenario for C12 {
                 }
             },
             // coordinator paths
-            60..=79 => {
+            54..=71 => {
                 let nthreads = rng.range(2, 5) as u8;
                 let ntx = rng.range(2, 5) as u8;
                 let nshards = rng.range(1, 2) as u8;
@@ -1936,6 +2223,9 @@ impl Scenario for C12 {
                     det: DetCase::default(),
                 }
             },
+            // (part) a participant shard: prepares (first, retransmitted, changed),
+            // commits, aborts for 2-4 transactions, sequentially or from 1-3 threads
+            72..=83 => gen_part(rng, nkeys, sticky),
             // (c) wait-for graphs
             _ => {
                 let ntx = rng.range(3, 8) as u8;
@@ -2067,6 +2357,7 @@ impl Scenario for C12 {
                 Op::LockWt { tx, keys, prio: Some(_) } => Some(Op::LockWt { tx: *tx, keys: *keys, prio: None }),
                 Op::LockWt { tx, keys, prio: None } => Some(Op::Lock { tx: *tx, keys: *keys }),
                 Op::Prepare { tx, shard, keys } if keys.count_ones() > 1 => Some(Op::Prepare { tx: *tx, shard: *shard, keys: keys & (keys - 1) }),
+                Op::PPrepare { tx, keys, val } if *val > 1 => Some(Op::PPrepare { tx: *tx, keys: *keys, val: 1 }),
                 _ => None,
             }
         };
@@ -2157,6 +2448,14 @@ impl Scenario for C12 {
             "detector_disabled",
             "lm_cycle_recorded",
             "stale_waits_cleaned",
+            // participant configuration
+            "part_retransmission_granted",
+            "part_retransmission_refused_after_takeover",
+            "part_changed_prepare",
+            "part_commit_of_prepared",
+            "part_abort_of_prepared",
+            "part_calls_overlapped",
+            "part_takeover_of_expired_lock",
         ]
     }
 
@@ -2168,12 +2467,12 @@ impl Scenario for C12 {
     }
 
     fn rule(&self) -> String {
-        "A case is one of: (a) 2-6 baton-scheduled threads each running 2-6 lock-manager operations (try_lock, try_lock_with_wait_tracking, release, release_by_handle[_with_wait_cleanup], end-of-transaction, cleanup_expired[_with_wait_cleanup], clock advance, lock_holder, detect_cycles) over 2-4 keys and <=8 transactions under an explicit schedule, followed by a sequential tail; (b) a sequential program of 6-24 such operations incl. serialize/restore; (coord) 2-5 threads of handle_prepare+record_vote/commit/abort/cleanup_timeouts/clock advance on a DistributedTxCoordinator with 2-5 begun transactions; (c) a sequential program of 4-30 add_wait/remove_wait/remove_transaction/cleanup_stale_edges/check operations on <=8 transactions (single edges, chains, rings, queues of waiters leading into a ring). In (a), (b) and (c) the wait-for graph is the one of a DeadlockDetector whose whole configuration is drawn with the case: victim policy (4), max_edges_per_tx (default or 1-3), max_cycle_length (default or 1-8, 50), victim_cascade_depth (default or 0-4), enabled, auto_abort_victim, detection_interval_ms, edge_ttl_ms; detect() is judged at every check. Non-trivial: (a)/(coord) at least two lock-manager calls of different threads overlapped in time; (b) at least one grant and one refusal; (c) at least one reported cycle was checked. Distinct: hash of configuration and the sequence of call kinds/outcomes in linearization order.".into()
+        "A case is one of: (a) 2-6 baton-scheduled threads each running 2-6 lock-manager operations (try_lock, try_lock_with_wait_tracking, release, release_by_handle[_with_wait_cleanup], end-of-transaction, cleanup_expired[_with_wait_cleanup], clock advance, lock_holder, detect_cycles) over 2-4 keys and <=8 transactions under an explicit schedule, followed by a sequential tail; (b) a sequential program of 6-24 such operations incl. serialize/restore; (coord) 2-5 threads of handle_prepare+record_vote/commit/abort/cleanup_timeouts/clock advance on a DistributedTxCoordinator with 2-5 begun transactions; (c) a sequential program of 4-30 add_wait/remove_wait/remove_transaction/cleanup_stale_edges/check operations on <=8 transactions (single edges, chains, rings, queues of waiters leading into a ring); (part) a real TxParticipant (own LockManager with a lease of 150/250/950 ms, own in-memory store) receiving prepare (first, identical retransmission, changed value or key set; Put/Delete operations), commit and abort for 2-4 transactions over 2-4 keys with clock advances short of / past the lease, either as a sequential program of 6-20 operations or from 1-3 baton-scheduled threads (each transaction driven by one thread, as by its coordinator) followed by a sequential tail; every prepare is judged as the lock request it is (Yes = grant under the returned handle, or a repeated vote under an earlier handle whose keys the transaction all still holds unexpired; Conflict = refusal), commit/abort as the release of the recorded handle followed by the none-left-behind check on the participant's lock manager. In (a), (b) and (c) the wait-for graph is the one of a DeadlockDetector whose whole configuration is drawn with the case: victim policy (4), max_edges_per_tx (default or 1-3), max_cycle_length (default or 1-8, 50), victim_cascade_depth (default or 0-4), enabled, auto_abort_victim, detection_interval_ms, edge_ttl_ms; detect() is judged at every check. Non-trivial: (a)/(coord)/(part, threads) at least two lock-manager calls of different threads overlapped in time; (b)/(part, sequential) at least one grant and one refusal; (c) at least one reported cycle was checked. Distinct: hash of configuration and the sequence of call kinds/outcomes in linearization order.".into()
     }
 
     fn components(&self) -> Value {
         json!({
-            "real": ["tensor_chain::LockManager", "tensor_chain::WaitForGraph", "tensor_chain::DeadlockDetector", "tensor_chain::DistributedTxCoordinator (begin, handle_prepare, record_vote, commit, abort, cleanup_timeouts; no WAL)", "tensor_chain::sync_compat locks in their neumann_verif form (every acquisition a schedule point)", "SerializableLockState via serde_json"],
+            "real": ["tensor_chain::LockManager", "tensor_chain::WaitForGraph", "tensor_chain::DeadlockDetector", "tensor_chain::DistributedTxCoordinator (begin, handle_prepare, record_vote, commit, abort, cleanup_timeouts; no WAL)", "tensor_chain::sync_compat locks in their neumann_verif form (every acquisition a schedule point)", "SerializableLockState via serde_json", "tensor_chain::TxParticipant (prepare, commit, abort) with its own LockManager and an in-memory TensorStore"],
             "simulated": ["thread interleaving: baton scheduler, explicit schedule in the case", "wall clock (lock expiry, transaction timeout, wait start times)", "getrandom (HashMap order, tx ids)"],
             "stub": ["no network, no participants: votes are fed straight from handle_prepare into record_vote"]
         })
